@@ -21,6 +21,10 @@ SysRemoveGroup(s, g) == g \in sysuses[s] /\ sysuses' = [sysuses EXCEPT ![s] = @ 
 Query == UNCHANGED <<own, uses, sysuses>> /\ Log(<<"query">>, "ok")
 Init == own = [g \in GroupNames |-> {}] /\ uses = [g \in GroupNames |-> {}]
         /\ sysuses = [s \in SysNames |-> IF s = "S1" THEN {"g1"} ELSE {"g2", "g3"}] /\ hist = <<>>
+\* a second starting point (generator MC_C14g_genB): g1 already uses g2, and g2 owns x - so that three operations reach "own a unit that
+\* is also inherited, then stop using the group it is inherited from"
+InitB == own = [g \in GroupNames |-> IF g = "g2" THEN {"x"} ELSE {}] /\ uses = [g \in GroupNames |-> IF g = "g1" THEN {"g2"} ELSE {}]
+         /\ sysuses = [s \in SysNames |-> IF s = "S1" THEN {"g1"} ELSE {"g2", "g3"}] /\ hist = <<>>
 Next == /\ Len(hist) < MaxOps
         /\ \/ \E g \in GroupNames, x \in UnitPool : AddUnits(g, x) \/ RemoveUnits(g, x)
            \/ \E g \in GroupNames, h \in GroupNames : AddGroup(g, h) \/ AddGroupCyclic(g, h) \/ RemoveGroup(g, h)
@@ -34,4 +38,5 @@ MembersIsLeastFixpoint == \A g \in GroupNames : MembersOf(own, uses, g) = own[g]
 SystemIsUnion == \A s \in SysNames : SysMembersOf(own, uses, sysuses, s) = UNION {MembersOf(own, uses, g) : g \in sysuses[s]}
 EditsImmediate == [][\A g \in GroupNames, x \in UnitPool : AddUnits(g, x) =>
                        \A k \in GroupNames : (k = g \/ g \in UsedGroups(uses, k)) => x \in MembersOf(own', uses', k)]_vars
+SpecB == InitB /\ [][Next]_vars
 =============================================================================
